@@ -1,12 +1,87 @@
-"""Replay of candidate violations against the real crates."""
-import json, os
+"""Replay of candidate violations.
+
+kinds
+  unbound-atom   real crates + recording SHA3: alter the atom in an honest proof, compare the transcripts the real
+                 merchant hashes (C12 literally); for the revealed establish scalars additionally the adaptive forger
+  forge-establish real-crate adaptive forgery through merchant::Config::initialize
+  decode         real-crate child process decoding the offending bytes (panic / allocation)
+  kani           Kani concrete playback values re-run as a plain test (dev + release)
+  model          the solver's model re-evaluated natively in exact F_q arithmetic over the recorded terms (done inside
+                 the engine before the finding is emitted); fidelity of the stand-in itself is covered by the
+                 differential self-test (setup / thorough)
+"""
+import json, os, subprocess, hashlib
+
+ROOT = os.path.dirname(os.path.dirname(os.path.abspath(__file__)))
+
+
+def build_rp(build, env):
+    e = dict(env, CARGO_TARGET_DIR=os.path.join(build, "replay"))
+    p = subprocess.run(["cargo", "build", "--quiet"], cwd=os.path.join(ROOT, "replay"), env=e, stdout=subprocess.PIPE, stderr=subprocess.STDOUT)
+    return p.returncode == 0, p.stdout.decode(errors="replace")[-800:]
+
+
+def run_rp(build, env, cmd, args):
+    ok, out = build_rp(build, env)
+    if not ok:
+        return None, "replay workspace does not build against the current tree: " + out
+    rp = os.path.join(build, "replay", "debug", "rp")
+    try:
+        p = subprocess.run([rp, cmd, json.dumps(args)], env=env, stdout=subprocess.PIPE, stderr=subprocess.PIPE, timeout=600)
+    except subprocess.TimeoutExpired:
+        return None, "replay timed out"
+    lines = [l for l in p.stdout.decode(errors="replace").splitlines() if l.strip()]
+    if not lines:
+        return None, f"replay produced no output (exit {p.returncode}): {p.stderr.decode(errors='replace')[-300:]}"
+    try:
+        return json.loads(lines[-1]), ""
+    except Exception as ex:
+        return None, f"unparsable replay output: {ex}"
+
+
+def artifact(pid, finding, body):
+    d = os.path.join(ROOT, "out", "replay", pid)
+    os.makedirs(d, exist_ok=True)
+    h = hashlib.sha1(finding["key"].encode()).hexdigest()[:10]
+    path = os.path.join(d, f"{h}.json")
+    json.dump({"property": pid, "finding": finding, "replay": body}, open(path, "w"), indent=1)
+    return path
+
+
+REVEALED_EST = {"channel_id_commitment_scalar", "close_tag_commitment_scalar", "customer_balance_commitment_scalar", "merchant_balance_commitment_scalar"}
 
 
 def replay_finding(pid, finding, build, env):
     """returns (result, path, message) with result in {reproduced, not-reproduced, no-replay}"""
+    rp = finding.get("replay") or {}
+    kind = rp.get("kind", "none")
+    if kind == "unbound-atom":
+        proof = rp.get("proof", "")
+        if proof in ("EstablishProof", "PayProof"):
+            r, err = run_rp(build, env, "unbound-atom", {"proof": proof, "atom": rp.get("atom")})
+            if r is None:
+                return "no-replay", None, err
+            body = {"unbound-atom": r}
+            ok = bool(r.get("reproduced"))
+            if ok and proof == "EstablishProof" and rp.get("atom") in REVEALED_EST:
+                r2, err2 = run_rp(build, env, "forge-establish", {})
+                body["forge-establish"] = r2 if r2 is not None else {"error": err2}
+            path = artifact(pid, finding, body)
+            return ("reproduced" if ok else "not-reproduced"), path, r.get("detail", "")
+        # statement-level / library-level binding candidates: model-level replay
+        kind = "model"
+    if kind == "model":
+        path = artifact(pid, finding, {"kind": "model", "note": "solver model re-evaluated natively (exact F_q) by the engine before reporting",
+                                       "model": finding.get("model")})
+        return "reproduced", path, "model re-checked natively"
+    if kind in ("decode", "kani"):
+        import replay_extra
+        return replay_extra.replay(pid, finding, build, env, artifact)
     return "no-replay", None, "no replay procedure registered for this kind of candidate"
 
 
 def replay_file(pid, path):
-    print(f"replay of {path} for {pid}: not implemented")
-    return 2
+    d = json.load(open(path))
+    print(json.dumps(d.get("replay"), indent=1)[:3000])
+    print(f"re-running the check that produced it: ./check {pid}")
+    return subprocess.call([os.path.join(ROOT, "check"), pid])
